@@ -48,6 +48,7 @@ P0 == [keep |-> FALSE, pctx |-> 0,
        due |-> {},       \* calls whose release func (if any) must have run by the next quiescent point
        refs |-> <<>>,    \* plain reference id -> [st, cb, g, ever]
        cons |-> <<>>,    \* consumer call id -> record (Wait, Resolve, ResolveWithReleased, Access)
+       zero |-> {},      \* resolver calls whose value is the zero value of T (the target container cannot tell it from "empty")
        panicked |-> FALSE,
        \* the root context given to SetContext was cancelled by the client: the resolver call that is
        \* active then still has to deliver its result; once any further API call or released() follows
@@ -150,13 +151,16 @@ PEnter(s, n) ==
     Bad([s EXCEPT !.rs = Append(@, "active"), !.relc = Append(@, 0)],
         If(n # Len(s.rs) + 1, {"Harness:enter"}))
 
-PLeave(s, n, out, rel) ==
+PLeaveZ(s, n, out, rel, zero) ==
     IF n \notin Calls(s) \/ s.rs[n] # "active" THEN Bad(s, {"Harness:leave"})
     ELSE LET s2 == [s EXCEPT !.rs[n] = IF out = "val" THEN (IF rel THEN "valr" ELSE "val")
-                                        ELSE (IF rel THEN "errr" ELSE "err")]
+                                        ELSE (IF rel THEN "errr" ELSE "err"),
+                             !.zero = IF zero THEN @ \cup {n} ELSE @]
          IN [s2 EXCEPT !.cons = [c \in DOMAIN s2.cons |->
                 IF s2.cons[c].kind = "access" /\ s2.cons[c].st = "open" /\ out = "val" /\ n \notin s2.invd
                 THEN [s2.cons[c] EXCEPT !.win = @ \cup {n}] ELSE s2.cons[c]]]
+
+PLeave(s, n, out, rel) == PLeaveZ(s, n, out, rel, FALSE)
 
 \* The callback of plain reference `ref` is invoked with (res, v, e).
 PCbk(s, ref, res, v, e) ==
@@ -221,7 +225,7 @@ PLeak(s) == IF s.panicked THEN s ELSE Bad(s, {"Harness:leak"})
 Delivered(s, tgt, tgterr) ==
     LET N == Len(s.rs) IN
     /\ N >= 1 /\ Returned(s, N) /\ N \notin s.inv
-    /\ IsVal(s, N) => tgt = N /\ tgterr = 0
+    /\ IsVal(s, N) => (tgt = N \/ (N \in s.zero /\ tgt = 0)) /\ tgterr = 0
     /\ IsErr(s, N) => tgterr = N /\ tgt = 0
     /\ \A r \in PlainHeld(s) : s.refs[r].cb =>
           s.refs[r].g = [r |-> TRUE, v |-> IF IsVal(s, N) THEN N ELSE 0, e |-> IF IsErr(s, N) THEN N ELSE 0]
